@@ -13,6 +13,7 @@ Proof.
     repeat match goal with
     | |- context [live_at vs ?i] => destruct (live_at vs i) as [?d|] eqn:?; cbn [option_map]
     | |- context [dead_at vs ?i] => destruct (dead_at vs i) eqn:?
+    | |- context [throws ?v] => destruct (throws v) eqn:?
     | |- context [init ?d] => is_var d; destruct d as [[|] ?elt]; cbn [init bv abs_box]
     end; cbn [fst snd abs_cell abs_box init bv val fresh]; vars_simp; try reflexivity.
 Qed.
@@ -59,6 +60,7 @@ Proof.
     repeat match goal with
     | |- context [live_at vs ?i] => destruct (live_at vs i) as [?d|] eqn:?
     | |- context [dead_at vs ?i] => let E := fresh "Hd" in destruct (dead_at vs i) eqn:E; [pose proof (dead_live _ _ E)|]
+    | |- context [throws ?v] => destruct (throws v) eqn:?
     | |- context [init ?d] => is_var d; destruct d as [[|] ?elt]; cbn [init bv]
     end; intros Hok; try discriminate Hok;
     (eexists; split; [sym_go; reflexivity | pt_close]).
